@@ -32,13 +32,21 @@ type vShape struct {
 	ST []vShArr              // slice of structs holding an array of pointers
 	SI []interface{}         // slice of interfaces holding pointers / maps / slices
 	MI map[string]interface{}
+	C  vShCmp  // by value
+	PC *vShCmp // behind a pointer
 }
 
 type vShArr struct {
 	P [1]*vShIn
 }
 
-var vhShapes = []string{"PS", "PT", "SS", "SP", "M", "MS", "AP", "AS", "N.L", "N.P", "IF", "SA", "MA", "ST", "SI", "SIM", "IFS", "MI", "M2", "MS2"}
+// vShCmp is comparable as a whole (no slice, map or func) yet holds references
+type vShCmp struct {
+	P *vShIn
+	I interface{}
+}
+
+var vhShapes = []string{"PS", "PT", "SS", "SP", "M", "MS", "AP", "AS", "N.L", "N.P", "IF", "SA", "MA", "ST", "SI", "SIM", "IFS", "MI", "M2", "MS2", "C.P", "PC.P", "C.I"}
 
 // vhShapeBuild fills the chosen container with the payload x and
 // returns functions reading the payload back / mutating the cell in place.
@@ -274,6 +282,37 @@ func vhShapeBuild(o *vShape, shape string, x int64) (read func(*vShape) (int64, 
 				s.MS["a"][0]++
 				s.MS["b"][0]++
 			}
+	case "C.P": // a comparable struct, by value, holding a pointer
+		o.C.P = &vShIn{X: x}
+		return func(s *vShape) (int64, bool) {
+				if s.C.P == nil {
+					return 0, false
+				}
+				return s.C.P.X, true
+			}, func(s *vShape) {
+				s.C.P.X++
+			}
+	case "PC.P": // the same struct behind a pointer
+		o.PC = &vShCmp{P: &vShIn{X: x}}
+		return func(s *vShape) (int64, bool) {
+				if s.PC == nil || s.PC.P == nil {
+					return 0, false
+				}
+				return s.PC.P.X, true
+			}, func(s *vShape) {
+				s.PC.P.X++
+			}
+	case "C.I": // its interface field holding a pointer
+		o.C.I = &vShIn{X: x}
+		return func(s *vShape) (int64, bool) {
+				p, ok := s.C.I.(*vShIn)
+				if !ok || p == nil {
+					return 0, false
+				}
+				return p.X, true
+			}, func(s *vShape) {
+				s.C.I.(*vShIn).X++
+			}
 	}
 	panic("shape")
 }
@@ -300,9 +339,9 @@ func VH_C14_clone() {
 // changes what later reads return; two reads share no mutable memory.
 func VH_C14_db() {
 	cfg := vhPickCfg()
-	shapes := []string{"PS", "PT", "SS", "SP", "M", "MS", "AP", "AS", "N.L", "N.P", "SA", "MA", "ST", "SI", "SIM", "IFS", "MI", "M2", "MS2"}
+	shapes := []string{"PS", "PT", "SS", "SP", "M", "MS", "AP", "AS", "N.L", "N.P", "SA", "MA", "ST", "SI", "SIM", "IFS", "MI", "M2", "MS2", "C.P", "PC.P", "C.I"}
 	shape := shapes[vChoice("shape", len(shapes))]
-	dynamic := shape == "SI" || shape == "SIM" || shape == "IFS" || shape == "MI"
+	dynamic := shape == "SI" || shape == "SIM" || shape == "IFS" || shape == "MI" || shape == "C.I"
 	if dynamic && !cfg.cache && !cfg.async {
 		return // interface-typed payloads change dynamic type through the file: memory-served reads only
 	}
@@ -401,7 +440,7 @@ func VH_C14_cache_vs_file() {
 	shapes := []string{"PS", "PT", "SS", "SP", "M", "MS", "N.L", "N.P"}
 	shape := shapes[vChoice("shape", len(shapes))]
 	x := vInt64("x")
-	src := &vShape{I: 5}
+	src := &vShape{I: 5, IF: int64(0), SI: []interface{}{int64(0), "", false, nil, 1.5}, MI: map[string]interface{}{"z": int64(0), "e": "", "n": nil}}
 	switch vChoice("state", 4) {
 	case 0: // nil: nothing to do
 	case 1: // empty (containers only)
@@ -456,6 +495,21 @@ func VH_C14_cache_vs_file() {
 		ce, ceok := c["e"]
 		fe, feok := f["e"]
 		vAssert("C14.cvf.inner_empty_slice", ceok == feok && (ce == nil) == (fe == nil))
+	}
+	// zero values held by interface-typed slots are values, not "nothing"
+	rcs, rfs := rc.(*vShape), rf.(*vShape)
+	vAssert("C14.cvf.zero_in_interface", (rcs.IF == nil) == (rfs.IF == nil))
+	vAssert("C14.cvf.zero_in_interface_slice", len(rcs.SI) == len(rfs.SI))
+	if len(rcs.SI) == len(rfs.SI) {
+		for k := range rcs.SI {
+			vAssert("C14.cvf.zero_in_interface_slice", (rcs.SI[k] == nil) == (rfs.SI[k] == nil))
+		}
+	}
+	vAssert("C14.cvf.zero_in_interface_map", len(rcs.MI) == len(rfs.MI))
+	for _, k := range []string{"z", "e", "n"} { // fixed order: the assertions are compared one by one with the native run
+		v, okc := rcs.MI[k]
+		w, okf := rfs.MI[k]
+		vAssert("C14.cvf.zero_in_interface_map", okc == okf && (v == nil) == (w == nil))
 	}
 	if shape == "SP" && cl == 1 && fl == 1 {
 		vAssert("C14.cvf.inner_nil_pointer", (rc.(*vShape).SP[0] == nil) == (rf.(*vShape).SP[0] == nil))
